@@ -9,7 +9,7 @@ RULE = ('(a) /proc/self/fd census after every step of seeded API histories and a
         'open, plus one loose cache file only while the consumer seeks backwards in a compressed object; LazyOpener inputs open only '
         'while consumed, never two at once; (c) tracemalloc peak of every streaming path for object sizes 1/8/48 MiB: bounded and not '
         'growing with size. Distinct = history signature / (path, size) probe; non-trivial = histories with >= 3 op kinds, every probe.')
-ASSUMPTIONS = ['Linux /proc/self/fd is the census', 'memory bound: peak < 8 MiB and growth 1->48 MiB < 4 MiB (chunk sizes are 64-512 KiB)',
+ASSUMPTIONS = ['Linux /proc/self/fd is the census', 'memory bound: peak < 6 MiB and growth between the smallest and largest probed object < 2 MiB (chunk sizes are 64-512 KiB; measured < 2.1 MiB / < 0.4 MiB)',
                'object sizes up to 48 MiB']
 TECHNIQUE = 'runtime monitoring: /proc/self/fd census at quiescent points and inside bulk reads; tracemalloc peaks vs object size'
 MONITORS = ['census']
